@@ -14,6 +14,8 @@ Driver of C18. One request per sheet:
   optional attributes of the rule set whose columns are present: they never call it), `l` (`list`)
 * `readx …`: the rules field holds several rule sets `<numId>!<rules>` joined by `+`
   (`XlsTableReader(rules_1, …)`); reply: one token per row, the results of the rule sets joined by `&`
+* `readr …`: as `readx`; the real code reads with the reader object of the previous `readx` / `readr` line
+  (the model is a function of the request: a reader keeps nothing from one table to the next)
 * `V`: `N` | `i<int>` | `s<str>` | `bT` | `bF`
 * sheet: rows joined by `/`, cells joined by `,`; cell `_` | `i<int>` | `t<str>`; `-` = row without
   cells, `=` = sheet without rows. Coordinates are the usual ones (`mkSheet`).
@@ -122,6 +124,7 @@ def viaOf : List Char → Option Nat
   | ['r','e','a','d','t'] => some 1
   | ['r','e','a','d','m'] => some 2
   | ['r','e','a','d','x'] => some 3
+  | ['r','e','a','d','r'] => some 3   -- the same reader object reads another table: a function of the request alone
   | _ => none
 
 /-- rule sets of a multi-object reader: `<numId>!<rules>` joined by `+` -/
